@@ -57,8 +57,17 @@ def one_history(c, rnd, hid, max_steps):
         mode = rnd.choice(["single", "single", "split", "split", "solid", "solidsplit"])
         tree = U.Tree(sb, rnd, big="split" in mode)
         tree.populate(rnd.randint(2, 6))
-        arch = U.Arch(sb)
+        # in a third of the histories the commands run INSIDE the archive's directory: the archive is named by a bare
+        # file name (`x.pna`, whose Path::parent() is empty) and the inputs by ../t/...
+        bare = rnd.random() < 0.33
+        cwd = sb.path("ar") if bare else sb.root
+        os.makedirs(sb.path("ar"), exist_ok=True)
+        arch = U.Arch(sb, base=cwd)
         log = tree.log
+        if bare:
+            log.append("cd ar     # every command below runs in <sandbox>/ar")
+        def from_cwd(roots):
+            return [p if (not bare or os.path.isabs(p)) else "../" + (p[2:] if p.startswith("./") else p) for p in roots]
         nsteps = min(max_steps, rnd.randint(3, 8))
         before = []
         ops_txt, results = [], []
@@ -75,6 +84,7 @@ def one_history(c, rnd, hid, max_steps):
                 op["kd"] = int(rnd.random() < 0.35)
                 op["kt"] = int(rnd.random() < 0.6)
                 roots, rec = pick_roots(tree, rnd)
+                roots = from_cwd(roots)
                 if t != "C" and op["kd"] and rnd.random() < 0.2:
                     fifo = sb.path("t", rnd.choice(["zfifo", "d/afifo", "0sock"]))
                     os.makedirs(os.path.dirname(fifo), exist_ok=True)
@@ -85,7 +95,7 @@ def one_history(c, rnd, hid, max_steps):
                     arch.clear()
                     if rnd.random() < 0.5 and si:
                         mode = rnd.choice(["single", "split", "solid", "solidsplit"])
-                    args = ["create", "ar/x.pna", "--overwrite"] + flags
+                    args = ["create", os.path.relpath(sb.path("ar", "x.pna"), cwd), "--overwrite"] + flags
                     if "solid" in mode:
                         args.append("--solid")
                     if "split" in mode:
@@ -106,7 +116,7 @@ def one_history(c, rnd, hid, max_steps):
                         args += ["--exclude", p]
                     args += roots
                     rewriting = True
-                op["nodes"] = [U.node(sb.root, p) for p in U.walk(sb.root, roots, rec)]
+                op["nodes"] = [U.node(cwd, p) for p in U.walk(cwd, roots, rec)]
             elif t == "D":
                 names_before = sorted({e[0] for e in before})
                 pats = []
@@ -127,11 +137,11 @@ def one_history(c, rnd, hid, max_steps):
                 rewriting = True
             else:
                 shutil.rmtree(sb.path("ar2"), ignore_errors=True)
-                args = ["split", arch.cur, "--max-size", str(rnd.choice([600, 1200, 5000])), "--out-dir", "ar2", "--overwrite"]
+                args = ["split", arch.cur, "--max-size", str(rnd.choice([600, 1200, 5000])), "--out-dir", sb.path("ar2"), "--overwrite"]
             # ---- run it
             was_parts = list(arch.parts)
             raw_before = arch.bytes() if si else {}
-            r = cli.run_pna(["--quiet"] + args, sb.root, timeout=60)
+            r = cli.run_pna(["--quiet"] + args, cwd, timeout=60)
             log.append("$ %s    -> rc %s %s" % (r["cmd"], r["rc"], r["err"].decode("utf-8", "replace").strip()[:160]))
             failed = r["rc"] != 0
             if r["timeout"] or r["rc"] == 101:
